@@ -105,3 +105,66 @@ pub fn radix(mut i: usize, dims: &[usize]) -> Option<Vec<usize>> {
 pub fn product(dims: &[usize]) -> usize {
     dims.iter().product()
 }
+
+/// (part name, generated case) for the structured fuzz target: the first choice of the
+/// byte source selects among the property's random profiles.
+pub fn fuzz_gen(prop: &str, src: &mut crate::src::Src) -> Option<(&'static str, Case)> {
+    let k = src.below(4);
+    Some(match prop {
+        "C01" => match k {
+            0 => ("random-small", c01::gen_small(src, 0)),
+            1 => ("random-any-size", c01::gen_big(src, 0)),
+            _ => ("garbage", c01::gen_garbage(src, 0)),
+        },
+        "C02" => match k {
+            0 => ("raw-histories", c02::gen_raw(src, 0)),
+            1 => ("raw-shapes", c02::gen_shapes(src, 0)),
+            2 => ("tracked-histories", c02::gen_tracked(src, 0)),
+            _ => ("tracked-shapes", c02::gen_shapes(src, 0)),
+        },
+        "C03" => match k {
+            0 | 1 => ("random-streams", c03::gen_stream(src, 0)),
+            _ => ("class-soup", c03::gen_soup(src, 0)),
+        },
+        "C04" => match k {
+            0 => ("pending-resize", c04::gen_pending_resize(src, 0)),
+            _ => ("random-histories", c04::gen_random(src, 0)),
+        },
+        "C05" => ("random-histories", c05::gen_random(src, 0)),
+        "C06" => ("random-histories", c06::gen_random(src, 0)),
+        "C07" => ("random-histories", c07::gen_random(src, 0)),
+        "C08" => ("random-sgr-sequences", c08::gen_case(src, 0)),
+        "C09" => ("random-texts", c09::gen_case(src, 0)),
+        "C10" => match k {
+            0 => ("paragraphs", c10::gen_paragraphs(src, 0)),
+            _ => ("random-histories", c10::gen_random(src, 0)),
+        },
+        "C11" => match k {
+            0 => ("short-every-cut", c11::gen_short_all_cuts(src, 0)),
+            _ => ("random-histories", c11::gen_case(src, 0)),
+        },
+        "C12" => match k {
+            0 => ("short-all-cuts", c12::gen_short(src, 0)),
+            1 => ("raw", c12::gen_raw(src, 0)),
+            _ => ("structured", c12::gen_structured(src, 0)),
+        },
+        "C13" => ("random-histories", c13::gen_case(src, 0)),
+        "C14" => ("random-sessions", c14::gen_case(src, 0)),
+        "C15" => match k {
+            0 | 1 => ("single-op-calls", c15::gen_single_ops(src, 0)),
+            _ => ("multi-op-calls", c15::gen_multi(src, 0)),
+        },
+        "C16" => match k {
+            0 | 1 => ("random-no-resize", c16::gen_plain(src, 0)),
+            _ => ("random-with-resize", c16::gen_resize(src, 0)),
+        },
+        "C17" => ("random-histories", c17::gen_case(src, 0)),
+        "C18" => ("random-sequences", c18::gen_random(src, 0)),
+        "C19" => ("random-histories", c19::gen_case(src, 0)),
+        "C20" => match k {
+            0 => ("long-payloads", c20::gen_long_payload(src, 0)),
+            _ => ("random-items", c20::gen_case(src, 0)),
+        },
+        _ => return None,
+    })
+}
